@@ -313,7 +313,7 @@ def run_ext(ctx, prop):
     thorough = ctx.tier == "thorough"
     rng = random.Random(ctx.seed * 7919 + 11)
     late = prop != "C18"
-    randoms = ext_random_scripts(rng, 1500 if thorough else 300, 50 if thorough else 25, late)
+    randoms = ext_random_scripts(rng, 4000 if thorough else 300, 60 if thorough else 25, late)
     if prop == "C15":
         # a joined side that retracts (a subquery with a trigger): the model of this configuration violates "never retract an absent row" (recorded finding),
         # so it is not part of the model-checked configurations; the real node is still run on directed scripts and judged by the same Layer P
@@ -324,7 +324,8 @@ def run_ext(ctx, prop):
         randoms += directed
         # the consolidated result of these runs is judged on its own as well (the recorded finding above is a transient retraction, the end result is right)
         replay_validate(ctx, directed, ["C15F"], sig_ext, "lookup_final")
-    run_ops(ctx, prop, "OpMC_ext", EXT_BODY, "ExtCfgs", "ExtUniverse", 4 if thorough else 3, randoms, sig_ext, [prop], sample=0 if thorough else 6000)
+    # MaxLen stays 3 in both tiers (38 messages x 9 configurations: length 4 is 18 M scripts); thorough replays every exported script and more random ones
+    run_ops(ctx, prop, "OpMC_ext", EXT_BODY, "ExtCfgs", "ExtUniverse", 3, randoms, sig_ext, [prop], sample=0 if thorough else 6000)
 
 
 def sig_ext(f):
